@@ -98,6 +98,8 @@ class Result:
     def __init__(s):
         s.reached = {}       # block -> predecessor state key (for witnesses) of first evidence-free arrival
         s.ret_vals = set()   # abstract values of _0 at evidence-free returns ('?' = unknown)
+        s.evidence_switches = set()   # blocks whose switch had an evidence edge (the tests themselves)
+        s.tuple_vals = {}    # field index -> abstract values of bool operands of `_0 = (a, b, ..)` on evidence-free paths
         s.states = 0
         s.parent = {}
 
@@ -151,6 +153,14 @@ def explore(b, spec, starts=(0,), init=None, stop=(), cap=CAP):
             if s_["k"] != "=":
                 continue
             lp = s_["l"]
+            if lp["l"] == 0 and not lp["p"] and s_["r"]["k"] == "agg" and s_["r"]["a"] == "tuple":
+                for k_, o_ in enumerate(s_["r"]["o"]):
+                    c_ = _const_bool(o_)
+                    if c_ is None and not op_is_const(o_) and _is_bool_local(b, op_place(o_)):
+                        c_ = val(op_place(o_)["l"]) or "?"
+                    if c_ is not None:
+                        res.tuple_vals.setdefault(k_, set()).add(c_)
+                continue
             if lp["p"] or b.locals[lp["l"]] != "bool":
                 continue
             r = s_["r"]; v = None
@@ -203,6 +213,7 @@ def explore(b, spec, starts=(0,), init=None, stop=(), cap=CAP):
                     if is_zero is True and v == T or is_zero is False and v == F:
                         continue           # infeasible on this path
                     if is_zero is True and v == N or is_zero is False and v == A:
+                        res.evidence_switches.add(blk)
                         continue           # evidence edge: everything behind it is fine
                     s2 = dict(st)
                     if is_zero is not None and root not in bad:
@@ -215,6 +226,7 @@ def explore(b, spec, starts=(0,), init=None, stop=(), cap=CAP):
                 ev = set(spec.edges(b, blk, t))
                 for tgt in dict.fromkeys(targets):
                     if tgt in ev:
+                        res.evidence_switches.add(blk)
                         continue
                     nxt.append((tgt, st))
         else:
@@ -227,6 +239,19 @@ def explore(b, spec, starts=(0,), init=None, stop=(), cap=CAP):
             if k2 not in seen:
                 seen.add(k2); res.parent[k2] = key; work.append(k2)
     return res
+
+
+def tuple_field_kind(b, spec, k):
+    """A / N kind of the k-th field of the tuple b returns (a bool), else None"""
+    r = explore(b, spec, cap=40000)
+    vs = r.tuple_vals.get(k)
+    if vs is None:
+        return None
+    if vs <= {F, A}:
+        return A
+    if vs <= {T, N}:
+        return N
+    return None
 
 
 def ret_kind(b, spec):
